@@ -20,6 +20,7 @@ open Lean Hive
 structure DState where
   mechs : List Mech := []
   ledger : Ledger := {}
+  joined : Joined := []
 
 def getField {Î±} [FromJson Î±] (j : Json) (k : String) : Except String Î± :=
   match j.getObjVal? k with
@@ -110,8 +111,9 @@ def handlePhase (st : DState) (op : String) (j : Json) : Except String (Ledger Ã
       | _ => pure []
     let probe : Bool â† optField j "probe" false
     let (ledger', lv) := if probe then (st.ledger, []) else st.ledger.phase pre post evs
-    let fifo := if op == "update" then viol18Step env pre post ++ viol04Move env.isEmpty pre post else []
-    let mon := monitorAll env post ++ viol04 cap post ++ viol04Step pre post ++ viol05Step isEl pre post evs ++ single ++ lv ++ fifo
+    let fifo := if op == "update" then viol18Step env pre post ++ viol04Move env.isEmpty pre post ++ viol18Observed env st.joined pre post else []
+    let acct := if probe then [] else viol19Step pre post evs
+    let mon := monitorAll env post ++ viol04 cap post ++ viol04Step pre post ++ viol05Step isEl pre post evs ++ single ++ lv ++ fifo ++ acct
     pure (ledger', Json.mkObj [("diff", strs d), ("mon", strs mon)])
 
 /-- transition probe: `transition_previous_to_next(sim, env, vehicle's activity, next)` for an
@@ -488,7 +490,7 @@ def handle (st : DState) (line : String) : DState Ã— Json :=
     match op with
     | "cfg" =>
       match (getField j "mechs" : Except String (List Mech)) with
-      | .ok ms => ({ mechs := ms, ledger := {} }, withId (Json.mkObj [("ok", true)]))
+      | .ok ms => ({ mechs := ms, ledger := {}, joined := [] }, withId (Json.mkObj [("ok", true)]))
       | .error e => (st, withId (Json.mkObj [("error", Json.str e)]))
     | "transition" =>
       match handleTransition st j with
@@ -496,7 +498,14 @@ def handle (st : DState) (line : String) : DState Ã— Json :=
       | .error e => (st, withId (Json.mkObj [("error", Json.str e)]))
     | "apply" | "update" | "tick" | "pre" =>
       match handlePhase st op j with
-      | .ok (l, r) => ({ st with ledger := l }, withId r)
+      | .ok (l, r) =>
+        -- observed queue membership follows the implementation's states of the history (not the probes)
+        let isProbe : Bool := (optField j "probe" false : Except String Bool).toOption.getD false
+        let joined' : Joined := if isProbe then st.joined else
+          match (getField j "post" : Except String Sim) with
+          | .ok post => st.joined.update post
+          | .error _ => st.joined
+        ({ st with ledger := l, joined := joined' }, withId r)
       | .error e => (st, withId (Json.mkObj [("error", Json.str e)]))
     | "timed" =>
       match handleTimed st j with
@@ -534,7 +543,9 @@ def handle (st : DState) (line : String) : DState Ã— Json :=
         let m := finalInstructions gens drivers
         let d := if m == final then [] else [s!"final instructions: model={reprStr m} impl={reprStr final}"]
         let vs := final.map Instr.vehicle
-        let mon := if vs.eraseDups.length == vs.length then [] else ["C09/two-per-vehicle| two instructions for one vehicle reach apply_instructions"]
+        let overruled := drivers.filter fun d => !(final.any fun f => f == d)
+        let mon := (if vs.eraseDups.length == vs.length then [] else ["C09/two-per-vehicle| two instructions for one vehicle reach apply_instructions"]) ++
+          overruled.map fun d => s!"C09/driver-overruled| the driver of vehicle {d.vehicle} issued {reprStr d} but another instruction reaches apply_instructions for that vehicle"
         pure (Json.mkObj [("diff", strs d), ("mon", strs mon)]) : Except String Json) with
       | .ok r => (st, withId r)
       | .error e => (st, withId (Json.mkObj [("error", Json.str e)]))
